@@ -269,7 +269,34 @@ class CallMixin:
                         "call-variant", "%s:decreases" % getattr(node, "_ordinal", c.name.split(".")[-1]), node, fr)
             cur.env = dict(env)
         composed = []
+        from .engine import split_mod
         for m in c.modifies:
+            base, fld = split_mod(m)
+            if fld != "":
+                # a field / item of an object: gets a fresh value of the declared post type
+                obj = env.get(base)
+                if not (isinstance(obj, Ref) and isinstance(cur.get(obj), HObj)):
+                    raise SpecError("modifies %s: base is not an object" % m)
+                cur.env = saved_env
+                self.frame_check(obj, cur, fr, node, what="attribute %s" % fld, field=fld)
+                cur.env = dict(env)
+                ty = c.post_types.get(m)
+                if ty is None:
+                    raise SpecError("modifies %s of %s needs a post_types entry" % (m, c.name))
+                if ty.startswith("="):
+                    val = self.ev1(ast.parse(ty[1:], mode="eval").body, cur, cf)     # an alias of another location
+                else:
+                    res = list(self.instantiate(cur, ty, "%s@call%d" % (m, next(_cc)), fresh=True))
+                    if len(res) != 1:
+                        raise SpecError("post type of %s must not split" % m)
+                    val = res[0][1]
+                h2 = cur.get(obj).replace()
+                if "[" in m:
+                    h2.items[fld] = val
+                else:
+                    h2.fields[fld] = val
+                cur.put(obj, h2)
+                continue
             tgt = self.ev1(ast.parse(m, mode="eval").body, cur, cf)
             if isinstance(tgt, Ref):
                 hobj = cur.get(tgt)
